@@ -362,6 +362,8 @@ func c17BadUTF8(t *tape.Tape, doc []byte) []byte {
 	return append(out, doc[at:]...)
 }
 
+var c17Behind = []byte(`"],"k":"v\\"}] 12345 "`)
+
 // c17SameShape returns doc with the lower-case letters inside its strings (outside
 // escapes) and its digits 1..8 replaced by others of the same kind.
 func c17SameShape(t *tape.Tape, doc []byte) []byte {
@@ -517,7 +519,38 @@ type tokState struct {
 	in     []byte
 }
 
+type c17Kept struct {
+	got  []byte
+	want string
+}
+
+// c17Within reports whether b lies inside buf's backing array (a view of the input,
+// which the caller overwrites itself with the next document).
+func c17Within(b, buf []byte) bool {
+	if len(b) == 0 || cap(buf) == 0 {
+		return false
+	}
+	full := buf[:cap(buf)]
+	p, q := uintptr(unsafe.Pointer(&b[0])), uintptr(unsafe.Pointer(&full[0]))
+	return p >= q && p < q+uintptr(len(full))
+}
+
+// checkKept looks again at the String() results kept so far.
+func (tr *c17TaskRes) checkKept(when string) {
+	if tr.fail != "" {
+		return
+	}
+	for _, k := range tr.kept {
+		if string(k.got) != k.want {
+			tr.failKey = "string-result-changed"
+			tr.fail = fmt.Sprintf("%s: a slice returned by an earlier String() call (own memory, not a view of the input) now reads %q, it was %q", when, clip(k.got, 80), k.want)
+			return
+		}
+	}
+}
+
 type c17TaskRes struct {
+	kept      []c17Kept
 	fail      string
 	failKey   string
 	toks      int64
@@ -606,12 +639,20 @@ func runC17(r *core.Run) {
 		// each tokenizer of the task is fed from one buffer of its own: the same
 		// address with new content at every new document
 		var arenas [2][]byte
+		loads := 0
 		load := func(k int, doc []byte) []byte {
 			if cap(arenas[k]) < len(doc) {
 				arenas[k] = make([]byte, 2*len(doc)+64)
 			}
 			b := arenas[k][:len(doc):len(doc)]
 			copy(b, doc)
+			loads++
+			if loads%3 == 0 && cap(arenas[k]) >= len(doc)+len(c17Behind) {
+				// a window into a larger buffer: more bytes of the caller's, a closing
+				// quote first, lie behind len(b) inside the capacity; they are not input
+				b = arenas[k][:len(doc)]
+				copy(arenas[k][len(doc):], c17Behind)
+			}
 			return b
 		}
 		for j := range sc.Tasks[task] {
@@ -636,6 +677,7 @@ func runC17(r *core.Run) {
 					in := load(k, st.Doc)
 					s.tok.Reset(in)
 					*s = tokState{tok: s.tok, d: docs[st], reused: true, in: in}
+					tr.checkKept("after Reset")
 				}
 				tr.tokzs++
 			case "abandon":
@@ -661,8 +703,13 @@ func runC17(r *core.Run) {
 						break
 					}
 				}
+				tr.checkKept("after further tokens")
+				if tr.fail != "" {
+					return
+				}
 			}
 		}
+		tr.checkKept("at the end of the task")
 	})
 	r.Steps += int64(res.Points)
 	r.SigAdd(fmt.Sprintf("%x", res.Trace))
@@ -845,8 +892,14 @@ func c17Next(tr *c17TaskRes, s *tokState) (more bool) {
 	}
 	switch {
 	case e.isStr:
-		if got := tok.String(); string(got) != e.str {
+		got := tok.String()
+		if string(got) != e.str {
 			return fail("string", "String() %q, expected %q", clip(got, 80), e.str)
+		}
+		// what String handed out is the caller's to keep: it still reads the same
+		// after later tokens, later documents and Reset (looked at again in c17Kept)
+		if len(got) > 0 && len(tr.kept) < 48 && !c17Within(got, doc) {
+			tr.kept = append(tr.kept, c17Kept{got: got, want: e.str})
 		}
 		if bytes.IndexByte(e.raw, '\\') >= 0 {
 			tr.strs++
